@@ -7,7 +7,7 @@ open LJT.Extent LJT.DecompCtl
 
 /-- the model's prediction of which bytes of the documented buffer a decompression writes -/
 def opC11 : List String → Option String
-  | ["g11d", ss, w, h, _seed, pf, sfi, pad, _bu, _fe, crop, prec] => do
+  | ["g11d", ss, w, h, _seed, pf, sfi, pad, _bu, _fe, crop, prec, _fl] => do
     let ss ← nat? ss; let w ← nat? w; let h ← nat? h; let pf ← nat? pf; let sfi ← nat? sfi; let pad ← nat? pad
     let crop ← nat? crop; let prec ← nat? prec
     let nc := if ss == 3 then 1 else 3
